@@ -23,6 +23,52 @@ _Q = np.array([[2, -1, 2], [2, 2, -1], [-1, 2, 2]]) / 3.0
 F0S = [None, None, _Q @ np.diag([np.exp(16.0), np.exp(-16.0), 1.0]) @ _Q.T]
 
 
+def size_sweep(chk, sizes):
+    """(Grain counts up to 10 000: the documented working range of the default banded Jacobian - minerals.py says the
+    default bandwidth "should work for up to 10000 grains"; beyond ~11 900 grains the solver refuses its work array.)
+    Every grain count of `sizes`: a 'replica' texture (grain i a copy of grain i mod 3), two updates, every call
+    judged by MineralTrace.tla (validity law + copies of one grain stay bit-identical)."""
+    from harness.common import scratch
+
+    fabs = [(0, 0), (0, 1), (0, 2), (0, 3), (0, 4), (1, 5)]
+    flows = ["gen3d", "ss_xz", "pure_xy", "trace", "stop"]
+    events = []
+    with scratch() as d:
+        for n in sizes:
+            phase, fabric = fabs[n % 6]
+            par = dict(M=(125, 50, 200)[n % 3], chi=(3, 0)[(n // 3) % 2], asm=[phase], phiOl=10, x=[5, 0])
+            w = layerb.World(d, dt=(0.2, 0.05)[n % 2])
+            acts = [dict(a="Create", m="a", c=dict(phase=phase, fabric=fabric, regime=(4, 6)[(n // 2) % 2], n=n), seed=n, tex="replica")]
+            acts += [dict(a="UpdateOk", m="a", fl=flows[(n + k) % len(flows)], par=par, cb=layerb.NOCB) for k in range(2)]
+            for act in acts:
+                lens_before = {name: len(m.orientations) for name, m in w.minerals.items()}
+                err = w.do(act)
+                ev = w.event(n, act, err, lens_before)
+                ev["disk"] = {}
+                events.append(ev)
+                chk.count(("sweep", n, len(events)))
+                if err != "None":
+                    break
+        rejects, tr = layerb.validate_trace(events, d)
+    chk.add_tlc("MineralTrace(size sweep)", tr, f"{len(events)} recorded calls, grain counts {sizes[0]}..{sizes[-1]} ({len(sizes)} counts)")
+    chk.cov["traces_validated_against_impl"] = chk.cov.get("traces_validated_against_impl", 0) + len(sizes)
+    chk.cov["size_sweep"] = dict(grain_counts=len(sizes), first=sizes[0], last=sizes[-1], texture="replica (copies of three grains)")
+    seen = set()
+    for e in events:
+        if e["ev"] == "Update" and e["exc"] != "None" and ("raised", e["exc"]) not in seen:
+            seen.add(("raised", e["exc"]))
+            chk.violation(dict(level="size-sweep", clause="update-raised", exc=e["exc"]), f"an update of a valid mineral with {e['obs']['a']['cfg']['n']} grains raised {e['exc']}", dict(kind="size-sweep", n=e["tid"]))
+    by = {}
+    for tid, line, clause in rejects:
+        if clause.startswith(layerb.TRACE_CLAUSES["C01"]):
+            by.setdefault(clause, []).append(tid)
+        else:
+            chk.skip("foreign-reject-" + clause)
+    for clause, tids in sorted(by.items()):
+        chk.violation(dict(level="size-sweep", clause=clause), f"trace spec rejected updates of 'replica' textures: {clause} at {len(tids)} grain count(s), first {sorted(tids)[:8]}",
+                      dict(kind="size-sweep", sizes=sorted(tids)[:200], how="Mineral(n_grains=n, orientations = three generic rotations repeated cyclically, equal volumes), two updates"))
+
+
 def main(tier):
     chk = Check("C01", tier)
     quick = tier != "thorough"
@@ -45,6 +91,8 @@ def main(tier):
     nshort = len(behs)
     behs = behs + longs + seeds
     events, comp = layerb.run_behaviours(chk, "C01", behs, fcheck=False, dt_of=lambda tid: DTS[tid % len(DTS)] if tid < nshort else 0.4, F0_of=lambda tid: F0S[tid % len(F0S)])
+    rs = np.random.default_rng(SEED + 1)
+    size_sweep(chk, list(range(1, 401 if quick else 1501)) + sorted({int(x) for x in rs.integers(401, 10001, size=8 if quick else 60)}))
     # coverage of the discrete classes actually exercised
     seen = dict(triples=set(), flows=set(), textures=set(), ns=set(), pars=set())
     for b in behs:
